@@ -83,6 +83,7 @@ def check(run: Run) -> None:
     R = _R(mod.tree, where="arithmetics.py")
     csm = run.src.need("symplyphysics.core.coordinate_systems.coordinate_systems")
     R.extern_static = static_methods(next(c_ for c_ in csm.tree.body if isinstance(c_, ast.ClassDef) and c_.name == "CoordinateSystem"))
+    R.extern_modules = [csm.tree]
 
     mutated = set()
 
